@@ -82,6 +82,11 @@ MUTANTS = {
                            "    def load(self, path):\n        if self.configs:\n            return\n        with open(path) as f:", ['C20']),
     'decode_cache_by_word': (V, "    def decode_instruction(self, instr):\n        return op_decode_instruction(instr, self)",
                              "    _dcache = {}\n\n    def decode_instruction(self, instr):\n        if instr not in ArmV6._dcache:\n            ArmV6._dcache[instr] = op_decode_instruction(instr, self)\n        return ArmV6._dcache[instr]", ['C20']),
+    'bank_swap_abt_und': (R, "        elif mode == 0b10111:\n            return abt\n        elif mode == 0b11010:\n            return hyp\n        elif mode == 0b11011:\n            return und",
+                          "        elif mode == 0b10111:\n            return und\n        elif mode == 0b11010:\n            return hyp\n        elif mode == 0b11011:\n            return abt", ['C10']),
+    'fiq_bank_lost_r8_r12': (R, "        return self.r_bank_select(mode, usr, fiq, usr, usr, usr, usr, usr, usr)", "        return self.r_bank_select(mode, usr, usr, usr, usr, usr, usr, usr, usr)", ['C10']),
+    'hyp_has_own_lr': (R, "                                      RName.LRund, RName.LRmon, RName.LRusr)", "                                      RName.LRund, RName.LRmon, RName.LRsvc)", ['C10']),
+    'spsr_mon_aliases_svc': (R, "            elif self.cpsr.m == 0b10110:\n                self.spsr_mon = value", "            elif self.cpsr.m == 0b10110:\n                self.spsr_svc = value", ['C10', 'C11']),
     'keyerror_for_ap_100': (V, "        elif perms.ap == 0b100:\n            print('unpredictable')", "        elif perms.ap == 0b100:\n            abort = {}[perms.ap]", ['C18']),
     'stale_opcode_len_reuse': (V, "        elif self.registers.current_instr_set() == InstrSet.THUMB:\n            self.opcode_len = 2\n            self.opcode = self.mem_a_get(self.registers.pc_store_value(), self.opcode_len)",
                                "        elif self.registers.current_instr_set() == InstrSet.THUMB:\n            self.opcode_len = 2 if self.opcode_len != 1 else 4\n            self.opcode = self.mem_a_get(self.registers.pc_store_value(), 2)", []),
